@@ -220,7 +220,7 @@ def std_lattice(sg):
     return np.array([[F(float(v)).limit_denominator(10 ** 6) for v in row] for row in lat], dtype=object)
 
 
-def make_dataset(e, sg, occupation, tag="", transform=None, order=None, wrap=True, concrete_params=None, orig_order=None):
+def make_dataset(e, sg, occupation, tag="", transform=None, order=None, wrap=True, concrete_params=None, orig_order=None, orig_supercell=False):
     """SpglibContract: the dataset spglib documents for a crystal of space group `sg` given in its standard setting with
     the orbits `occupation` = [(letter, Z)] occupied at symbolic generic parameters.  `transform` (4x4 key) moves the
     whole crystal by an affine map first (another origin choice / normalizer image); letters are then those of the image
@@ -299,6 +299,27 @@ def make_dataset(e, sg, occupation, tag="", transform=None, order=None, wrap=Tru
         ds["mapping_to_primitive"] = np.array([ren2.setdefault(m, len(ren2)) for m in mp_o])
         # std_mapping_to_primitive must use the same primitive numbering
         ds["std_mapping_to_primitive"] = np.array([ren2[int(m)] for m in mapping])
+    if orig_supercell:
+        # the analysed system is the 2x1x1 supercell of the standardized cell (atoms of the second cell appended): every
+        # per-atom array of the original system is doubled, the standardized data stay as they are
+        op, ot = ds["orig_positions"], ds["orig_types"]
+        half = np.empty((2 * n, 3), dtype=object)
+        for i in range(n):
+            for s in (0, 1):
+                half[i + s * n, 0] = (op[i][0] + s) / 2
+                half[i + s * n, 1] = op[i][1]
+                half[i + s * n, 2] = op[i][2]
+        ds["orig_positions"] = half
+        ds["orig_types"] = np.concatenate([ot, ot])
+        ds["wyckoffs"] = list(ds["wyckoffs"]) * 2
+        co = np.asarray(ds["crystallographic_orbits"])
+        ds["crystallographic_orbits"] = np.concatenate([co, co])
+        ds["equivalent_atoms"] = ds["crystallographic_orbits"].copy()
+        mp = np.asarray(ds["mapping_to_primitive"])
+        ds["mapping_to_primitive"] = np.concatenate([mp, mp])
+        lat2 = np.array(ds["std_lattice"], dtype=object).copy()
+        lat2[0] = lat2[0] * 2
+        ds["orig_lattice"] = lat2
     return ds
 
 
@@ -364,7 +385,7 @@ class Session:
         self.systems = []
         for i, ds in enumerate(self.datasets):
             n = len(ds.std_types)
-            self.systems.append(StubAtoms(numbers=np.array(ds.get("orig_types", ds.std_types)), scaled_positions=ds.get("orig_positions", ds.std_positions), cell=ds.std_lattice, pbc=pbc))
+            self.systems.append(StubAtoms(numbers=np.array(ds.get("orig_types", ds.std_types)), scaled_positions=ds.get("orig_positions", ds.std_positions), cell=ds.get("orig_lattice", ds.std_lattice), pbc=pbc))
         self.table = {id(s): d for s, d in zip(self.systems, self.datasets)}
         self.an = None
         self.exact_wrap = exact_wrap
@@ -421,15 +442,17 @@ def occupations(sg, max_orbits, species):
 
 
 # --------------------------------------------------------------------------------------- concrete replay helpers
-def concrete_dataset(sg, occ, vals, transform=None, order=None, orig_order=None):
+def concrete_dataset(sg, occ, vals, transform=None, order=None, orig_order=None, orig_supercell=False):
     """the SpglibContract dataset for concrete parameter values, as plain float/int arrays"""
-    ds = make_dataset(None, sg, occ, transform=transform, order=order, orig_order=orig_order, concrete_params=[[F(float(v)).limit_denominator(10 ** 9) for v in p] for p in vals])
+    ds = make_dataset(None, sg, occ, transform=transform, order=order, orig_order=orig_order, orig_supercell=orig_supercell, concrete_params=[[F(float(v)).limit_denominator(10 ** 9) for v in p] for p in vals])
     out = Dataset(ds)
     out["std_positions"] = np.array([[float(v.cval()) for v in row] for row in ds.std_positions], dtype=float).reshape(-1, 3)
     out["orig_positions"] = np.array([[float(v.cval()) for v in row] for row in ds["orig_positions"]], dtype=float).reshape(-1, 3)
     out["std_lattice"] = np.array([[float(v) for v in row] for row in ds.std_lattice], dtype=float)
     out["translations"] = np.array([[float(v.cval()) for v in row] for row in ds.translations], dtype=float)
     out["wyckoffs"] = list(ds.wyckoffs)
+    if "orig_lattice" in ds:
+        out["orig_lattice"] = np.array([[float(v.cval()) if isinstance(v, SReal) else float(v) for v in row] for row in ds["orig_lattice"]], dtype=float)
     return out
 
 
@@ -439,7 +462,7 @@ class RealSession:
     def __init__(self, datasets, pbc=True):
         from ase import Atoms
         self.datasets = datasets
-        self.systems = [Atoms(numbers=d.get("orig_types", d.std_types), scaled_positions=d.get("orig_positions", d.std_positions), cell=d.std_lattice, pbc=pbc) for d in datasets]
+        self.systems = [Atoms(numbers=d.get("orig_types", d.std_types), scaled_positions=d.get("orig_positions", d.std_positions), cell=d.get("orig_lattice", d.std_lattice), pbc=pbc) for d in datasets]
         self.table = {id(s): d for s, d in zip(self.systems, datasets)}
         self.an = None
 
